@@ -46,8 +46,9 @@ type kvAddData struct {
 // AddVertex adds an edge to the graph, if it already exists
 // in the graph, it is replaced
 func (kgdb *KVInterfaceGDB) AddVertex(vertices []*gdbi.Vertex) error {
+	// a refused vertex does not take the accepted ones with it (see BulkAdd)
+	var bulkErr *multierror.Error
 	err := kgdb.kvg.kv.BulkWrite(func(tx kvi.KVBulkWrite) error {
-		var bulkErr *multierror.Error
 		inserted := false
 		for _, vert := range vertices {
 			if err := insertVertex(tx, kgdb.kvg.idx, kgdb.graph, vert.ToVertex()); err != nil {
@@ -59,9 +60,12 @@ func (kgdb *KVInterfaceGDB) AddVertex(vertices []*gdbi.Vertex) error {
 		if inserted {
 			kgdb.kvg.ts.Touch(kgdb.graph)
 		}
-		return bulkErr.ErrorOrNil()
+		return nil
 	})
-	return err
+	if err != nil {
+		return err
+	}
+	return bulkErr.ErrorOrNil()
 }
 
 func insertVertex(tx kvi.KVBulkWrite, idx *kvindex.KVIndex, graph string, vertex *gripql.Vertex) error {
@@ -135,8 +139,9 @@ func insertEdge(tx kvi.KVBulkWrite, idx *kvindex.KVIndex, graph string, edge *gr
 // AddEdge adds an edge to the graph, if the id is not "" and in already exists
 // in the graph, it is replaced
 func (kgdb *KVInterfaceGDB) AddEdge(edges []*gdbi.Edge) error {
+	// a refused edge does not take the accepted ones with it (see BulkAdd)
+	var bulkErr *multierror.Error
 	err := kgdb.kvg.kv.BulkWrite(func(tx kvi.KVBulkWrite) error {
-		var bulkErr *multierror.Error
 		inserted := false
 		for _, edge := range edges {
 			if err := insertEdge(tx, kgdb.kvg.idx, kgdb.graph, edge.ToEdge()); err != nil {
@@ -148,9 +153,12 @@ func (kgdb *KVInterfaceGDB) AddEdge(edges []*gdbi.Edge) error {
 		if inserted {
 			kgdb.kvg.ts.Touch(kgdb.graph)
 		}
-		return bulkErr.ErrorOrNil()
+		return nil
 	})
-	return err
+	if err != nil {
+		return err
+	}
+	return bulkErr.ErrorOrNil()
 }
 
 func (kgdb *KVInterfaceGDB) BulkAdd(stream <-chan *gdbi.GraphElement) error {
